@@ -1,4 +1,4 @@
-import QuillModel.Backend.FlushStep
+import QuillModel.Backend.FlushProgress
 import QuillModel.Props.C05
 /-!
 # C06 — `flush_log()` returns only after all earlier statements are written and flushed
@@ -81,11 +81,12 @@ theorem C06_other_threads (s0 : BSt) (h0 : StartF s0) (hg : s0.cfg.grace ≠ 0) 
     (k : Nat) (r : Stmt) (hrk : r ∈ ((runOps s0 ops).th k).accepted)
     (hlt : r.ts < st.ts) : r ∈ ((runOps s0 ops).th k).popped := by
   have hF := (start_FI h0).runOps ops
-  have hG := (start_GI h0.start hg hr).runOps ops
+  have hG := (start_GI h0.start).runOps ops
+  have hc := (start_GI h0.start).cfg_runOps ops
   obtain ⟨pre, post, hacc⟩ := List.append_of_mem hst
   obtain ⟨more, hpop⟩ := hF.flush_flag_popped hacc hk hf
   have hsp : st ∈ ((runOps s0 ops).th i).popped := by rw [hpop]; simp
-  exact earlier_popped hF hG hp hsp hrk hlt
+  exact earlier_popped hF hG (by rw [hc]; exact hg) (by rw [hc]; exact hr) hp hsp hrk hlt
 
 /-- **The flush request is never dropped and never counted** (dropping *and* blocking queues). `enqFlow … 1 …` is the
     body of `flush_log` after the timestamp was read (first attempt, resumption after a stall, every retry). With
@@ -109,22 +110,50 @@ theorem C06_release (s : BSt) (a : Nat) (x : Actor) (f : Nat) (hx : s.actor a = 
     (f ∉ s.flags → (resume s a).1 = s ∧ (resume s a).2 = "parked:sleep") :=
   resume_flag s a x f hx hp
 
-/- Liveness, full statement (NOT proved): for every schedule that contains infinitely many polls and in which the
-   clock eventually exceeds `st.ts + grace`, a caller parked on the flag of an accepted Flush statement `st` is
-   eventually released. What is missing: a variant argument over polls (each poll that does not raise the flag pops
-   an event with a smaller-or-equal timestamp or moves records towards the buffers; finitely many such events exist
-   below `st`) — it needs the progress lemma of C03 for `populate` and a bound on records injected with old
-   timestamps. -/
-/-- **Progress, one step** (`…_partial`, see the comment above for the full liveness statement): whenever the Flush
-    event is the minimum front at a `_process_lowest_timestamp_transit_event`, that call pops it and raises the flag;
-    and the next `resume` of the parked caller returns. -/
-theorem C06_progress_partial (table : List (Nat × Nat × List FOp)) (s : BSt) (j : Nat) (st : Stmt) (rest : List Stmt)
-    (f : Nat) (hl : lowest s = some j) (hb : (s.th j).buf = st :: rest) (hk : st.kind = .flush f) :
-    f ∈ (processLowest (runInj table) s).1.flags ∧
-    ∀ s' a x, s'.actor a = some x → x.pend = .flag f → f ∈ s'.flags → (resume s' a).2 = "done" := by
-  refine ⟨?_, fun s' a x hx hp hf => ((resume_flag s' a x f hx hp).1 hf).2⟩
-  have := (flush_step (runInj table) (logGrows_runInj table) s j st rest f hl hb hk).2.1
-  exact List.mem_of_mem_head? this
+/- Liveness, full statement (NOT proved in full): if the backend keeps polling, every call of `flush_log()` returns —
+   including a caller that is still parked on `Pend.retry` because its request did not fit into a full queue. The
+   theorem below covers the caller whose request has been committed (parked on its flag). What is missing for the
+   `Pend.retry` case: that a drained queue grants the request on the next retry (the end-to-end form of C09: the
+   reader position is published when the queue is drained), and a schedule that interleaves `resume` of the caller. -/
+/-- **`flush_log()` returns as long as the backend keeps running** (`…_partial`: for a caller whose Flush request
+    has been committed, see the comment above). In any reachable state of any configuration in which the backend
+    thread is running, let `st` be a committed Flush request (flag `f`) and let every pending record be past its
+    grace period (`Ripe`; automatic when ordering is disabled, and established by letting the clock advance by the
+    grace period: next theorem). Then **every continuation of the schedule that consists of polls without injected
+    frontend operations and of clock ticks, and contains at least as many polls as there are pending records
+    (`pendingCount`: accepted and not yet popped, over all contexts), ends with the flag raised** — for every soft
+    and hard limit (single-event mode and batch mode), queue capacity, either refresh order. The parked caller's next
+    `resume` then answers "done" (`C06_release`). Every such poll pops at least one event while anything is pending
+    (`PB.poll_quiet`): nothing starves. -/
+theorem C06_flush_log_returns_partial (s0 : BSt) (h0 : StartF s0) (ops : List Op) (i : Nat) (st : Stmt) (f : Nat)
+    (hst : st ∈ ((runOps s0 ops).th i).accepted) (hk : st.kind = .flush f)
+    (hrun : (runOps s0 ops).backendGone = false) (hripe : Ripe (runOps s0 ops))
+    (suffix : List Op) (hq : ∀ o ∈ suffix, quietOp o = true)
+    (hn : pendingCount (runOps s0 ops) ≤ pollCount suffix) :
+    f ∈ (runOps (runOps s0 ops) suffix).flags ∧
+    ∀ a x, (runOps (runOps s0 ops) suffix).actor a = some x → x.pend = .flag f →
+      (resume (runOps (runOps s0 ops) suffix) a).2 = "done" := by
+  have hpg : PG (runOps s0 ops) :=
+    ⟨(start_GI h0.start).runOps ops, (start_FI h0).runOps ops, hripe, hrun⟩
+  have hf := quiet_run_drains hpg suffix hq hn i st f hst hk
+  exact ⟨hf, fun a x hx hp => ((resume_flag _ a x f hx hp).1 hf).2⟩
+
+/-- the same with the premise on the clock made operational: the continuation starts with the clock advancing by at
+    least the grace period (any amount when ordering is disabled) -/
+theorem C06_flush_log_returns_after_grace_partial (s0 : BSt) (h0 : StartF s0) (ops : List Op) (i : Nat) (st : Stmt)
+    (f : Nat) (hst : st ∈ ((runOps s0 ops).th i).accepted) (hk : st.kind = .flush f)
+    (hrun : (runOps s0 ops).backendGone = false) (dt : Nat) (hdt : (runOps s0 ops).cfg.grace ≤ dt)
+    (suffix : List Op) (hq : ∀ o ∈ suffix, quietOp o = true)
+    (hn : pendingCount (runOps s0 ops) ≤ pollCount suffix) :
+    f ∈ (runOps (runOps s0 ops) (.front (.tick dt) :: suffix)).flags := by
+  have hgi := (start_GI h0.start).runOps ops
+  have hfi := (start_FI h0).runOps ops
+  have hpg : PG (applyOp (runOps s0 ops) (.front (.tick dt))).1 :=
+    ⟨hgi.applyOp _, hfi.applyOp _, ripe_after_tick hgi dt hdt, hrun⟩
+  have e : runOps (runOps s0 ops) (.front (.tick dt) :: suffix) =
+      runOps (applyOp (runOps s0 ops) (.front (.tick dt))).1 suffix := by simp [runOps]
+  rw [e]
+  exact quiet_run_drains hpg suffix hq hn i st f hst hk
 
 /-! ### witnesses -/
 
@@ -143,6 +172,18 @@ example :
     (runOps (c05Init true) c06Cycle).flags = [0] ∧ (runOps (c05Init true) c06Cycle).flagLog = [(0, 3)] ∧
     (runOps (c05Init true) c06Cycle).actors.map (fun x => x.pend matches .none) = [true] ∧
     (runOps (c05Init true) c06Cycle).ths.map (fun t => (t.accepted.length, t.popped.length)) = [(3, 3)] := by
+  decide
+
+/-- non-vacuity of `C06_flush_log_returns_after_grace_partial`: after the two statements and the Flush request are
+    committed (three pending records), the continuation "clock + 100, three polls" meets the hypotheses. -/
+example :
+    (runOps (c05Init true) (c06Cycle.take 4)).backendGone = false ∧
+    (runOps (c05Init true) (c06Cycle.take 4)).cfg.grace ≤ 100 ∧
+    (∀ o ∈ [Op.poll [], Op.poll [], Op.poll []], quietOp o = true) ∧
+    pendingCount (runOps (c05Init true) (c06Cycle.take 4)) ≤ pollCount [Op.poll [], Op.poll [], Op.poll []] ∧
+    (runOps (c05Init true) (c06Cycle.take 4)).ths.map (fun t => t.accepted.map (fun st => st.kind matches .flush 0)) =
+      [[false, false, true]] ∧
+    (runOps (runOps (c05Init true) (c06Cycle.take 4)) (.front (.tick 100) :: [Op.poll [], Op.poll [], Op.poll []])).flags = [0] := by
   decide
 
 /-- F6 window: inside the backend's clock read of a poll, thread 2 registers and completes a log call (@1100), then
